@@ -71,7 +71,7 @@ def decode_fields(c, cdb):
     return {f: R.get(cdb, *pos) for f, pos in c.fields.items()}
 
 
-def check_buffers(ctx, c, setname, path, a, cdb, datain, dataout):
+def check_buffers(ctx, c, setname, path, a, cdb, datain, dataout, by_cdb_only=False):
     wit = {"cmd": c.name, "table": setname, "path": path, "args": a, "cdb": bytes(cdb),
            "datain": "%s len=%s" % (type(datain).__name__, _len(datain)), "dataout": "%s len=%s" % (type(dataout).__name__, _len(dataout))}
     for nm, buf in (("datain", datain), ("dataout", dataout)):
@@ -82,6 +82,8 @@ def check_buffers(ctx, c, setname, path, a, cdb, datain, dataout):
         return False
     fields = decode_fields(c, cdb)
     full = dict(a)
+    if by_cdb_only and c.xfer not in ("alloc", "none", "list"):
+        return False  # the announced transfer is not readable from the CDB alone
     exp = expected(c, fields, full)
     if exp is None:
         ctx.count("skipped_unspecified_layout")
@@ -133,6 +135,11 @@ def cases(c, rng, shard):
                         t = S.ata_transfer(a)
                         a2["data"] = harness.pattern_bytes(max(t) or 16, 3)
                         yield a2
+                        # an explicitly given but empty buffer is no buffer
+                        for empty in (b"", bytearray()):
+                            a3 = dict(a)
+                            a3["data"] = empty
+                            yield a3
         return
     bss = harness.BLOCKSIZES if "blocksize" in c.args else [None]
     for bs in bss:
@@ -232,10 +239,29 @@ def one(ctx, c, setname, a, transports, do_transports, rng):
                     ctx.fail("C03:%s.deepcopy_raises" % c.name, "copy.deepcopy(command) raised %s" % e, {"cmd": c.name, "args": a}, exc=e)
             if not c.facade or not do_transports:
                 return
+            foreign_keywords(ctx, c, setname, a, full)
             for tname, mk in transports:
                 dev, log = mk(setname)
                 s = harness.make_facade(dev)
                 err = None
+                if c.xfer in ("alloc", "allocarg") and not isinstance(cmd.datain, Huge) and ctx.evaluations % 2:
+                    # the device has more to report than fits the allocation length: it reports the full length and
+                    # transfers what fits; every hand-off of the command must still carry buffers that match its CDB
+                    import sys as _sys
+
+                    from vmon.props.c13 import response_for
+
+                    resp = response_for(c, full, rng, big=True)
+
+                    def filler(ev, resp=resp):
+                        buf = ev.get("eff_in") if "eff_in" in ev else ev.get("in")
+                        if buf is not None and len(buf) and resp:
+                            k = min(len(buf), len(resp))
+                            buf[:k] = resp[:k]
+                        return 0, None
+
+                    _sys.modules["sgio" if tname == "sgio" else "iscsi"].handler = filler
+                    ctx.count("replies_announcing_more_than_fits")
                 try:
                     cmd2 = harness.facade_call(c, s, DO.fresh(a) if c.custom else dict(a))
                 except Exception as e:  # noqa: BLE001
@@ -247,6 +273,11 @@ def one(ctx, c, setname, a, transports, do_transports, rng):
                              {"cmd": c.name, "table": setname, "args": a, "transport": tname}, exc=err)
                     return
                 ev = log[0]
+                for later in log[1:]:
+                    # the facade handed the command over more than once: every hand-off must be consistent in itself
+                    f2 = dict(full)
+                    check_buffers(ctx, c, setname, tname + ".further_hand_off", f2, later["cdb"], later["in"], later["out"], by_cdb_only=True)
+                    ctx.count("further_hand_offs_checked")
                 nt = check_buffers(ctx, c, setname, tname, full, ev["cdb"], ev["in"], ev["out"])
                 ctx.case((tname,) + rep, nt)
                 ctx.count("%s_boundary_events" % tname)
@@ -281,6 +312,36 @@ def one(ctx, c, setname, a, transports, do_transports, rng):
                     if (ev["dir"], ev["xferlen"]) != want:
                         ctx.fail("C03:%s.iscsi_task_direction" % c.name, "Task(dir=%r, xferlen=%r) for in=%d out=%d" % (ev["dir"], ev["xferlen"], li, lo),
                                  {"cmd": c.name, "args": a})
+
+
+def foreign_keywords(ctx, c, setname, a, full):
+    """constructors that swallow unknown keywords (**kwargs): a keyword spelt like a CDB field or like another class's
+    argument may be ignored or honoured, but CDB and buffers must agree with each other either way"""
+    import inspect
+
+    from vmon import harness
+
+    cls = c.load()
+    try:
+        if not any(p.kind is p.VAR_KEYWORD for p in inspect.signature(cls.__init__).parameters.values()):
+            return
+    except (TypeError, ValueError):
+        return
+    if c.custom:
+        return
+    names = set(getattr(cls, "_cdb_bits", {})) | {"alloc_len", "alloclen", "allocation_length", "alloc", "tl", "transfer_length", "parameter_list_length", "blocksize"}
+    names -= set(harness.call_kwargs(c, a)) | {"opcode", "service_action"}
+    for name in sorted(names):
+        for val in (8, 24, 8192):
+            kw = harness.call_kwargs(c, a)
+            kw[name] = val
+            try:
+                cmd = cls(c.opcode_obj(setname), **kw)
+            except Exception:  # noqa: BLE001
+                ctx.count("foreign_keyword_refused")
+                continue
+            ctx.count("foreign_keyword_accepted")
+            check_buffers(ctx, c, setname, "foreign_keyword.%s" % name, full, cmd.cdb, cmd.datain, cmd.dataout, by_cdb_only=True)
 
 
 def two_facades(ctx, c, setname, rng):
